@@ -60,4 +60,51 @@ theorem C02_string_exact_or_refused_partial (d : Dialect) (s rest : Str) (hr : r
     · rfl
     · exact absurd ⟨hp, hn⟩ hx
 
+/-- (iv-a) `repr(int)` is read back as the same integer (decimal digits round trip, sign included) -/
+theorem C02_int_roundtrip (i : Int) : parseInt (renderInt i) = i := parseInt_renderInt i
+
+/-- (iv-b) every admissible value — string, int, bool, None, date, time, datetime, float/Decimal text,
+    arbitrarily nested sequence — contributes exactly its own token group `valToks d v` (one string token
+    for strings / dates / times, sign + digits for ints, `(` items `,` … `)` for sequences) to ANY
+    statement text around it, provided the text behind it starts with a delimiter; what follows is lexed
+    as if the value were not there.  By mutual induction over the (nested) value. -/
+theorem C02_lex_render_value (d : Dialect) (v : Val) (rest : Str) (ha : Adm d v = true)
+    (hr : okAfter rest = true) :
+    tokens d (render d v ++ rest) = (tokens d rest).map (valToks d v ++ ·) :=
+  tokens_render d v rest ha hr
+
+example : tokens .postgres (render .postgres (.seq [.str [39, 59, 45, 45], .null, .bool true]) ++ [41])
+    = some ([.punct 40, .str [39, 59, 45, 45], .punct 44, .word [78, 85, 76, 76],
+             .punct 44, .str [116], .punct 41] ++ [.punct 41]) := by
+  rw [C02_lex_render_value _ _ _ (by decide) (by decide), tokens_close]; rfl
+
+/-- (v-a) `_insertSQL`: the token stream is the skeleton `INSERT INTO t ( names ) VALUES ( … )` with the
+    i-th hole filled by the token group of the i-th value — for any number of values (induction over the
+    value list); the skeleton does not depend on the data. -/
+theorem C02_stmt_skeleton_independent_of_data_insert (d : Dialect) (table : Str) (names : List Str)
+    (vs : List Val) (ht : identLike table = true) (hn : ∀ n ∈ names, identLike n = true)
+    (hv : ∀ v ∈ vs, Adm d v = true) :
+    tokens d (insertSQL d table names vs) = some (insertToks table names (vs.map (valToks d))) :=
+  tokens_insertSQL d table names vs ht hn hv
+
+/-- (v-b) the UPDATE `_SO_update` sends: `UPDATE t SET n = ( lit ) , … WHERE id = ( lit )` -/
+theorem C02_stmt_skeleton_independent_of_data_update (d : Dialect) (table : Str) (sets : List (Str × Val))
+    (idName : Str) (idv : Val) (ht : identLike table = true) (hi : identLike idName = true)
+    (hs : ∀ p ∈ sets, identLike p.1 = true ∧ Adm d p.2 = true) (hidv : Adm d idv = true) :
+    tokens d (updateSQL d table sets idName idv) =
+      some (updateToks table (sets.map fun p => (p.1, valToks d p.2)) idName (valToks d idv)) :=
+  tokens_updateSQL d table sets idName idv ht hi hs hidv
+
+/-- (v-c) the WHERE text of `_SO_columnClause`: `n = lit AND n IS NULL AND …`; the only thing the
+    skeleton takes from the data is whether a value is `None` -/
+theorem C02_stmt_skeleton_independent_of_data_where (d : Dialect) (data : List (Str × Val))
+    (hs : ∀ p ∈ data, identLike p.1 = true ∧ Adm d p.2 = true) :
+    tokens d (columnClause d data) =
+      some (clauseToks (data.map fun p => (p.1, p.2.isNull, valToks d p.2))) :=
+  tokens_columnClause d data hs
+
+example : tokens .mysql (insertSQL .mysql [116] [[97], [98]] [.str [39, 41, 59], .null])
+    = some (insertToks [116] [[97], [98]] [[.str [39, 41, 59]], [.word [78, 85, 76, 76]]]) := by
+  rw [C02_stmt_skeleton_independent_of_data_insert _ _ _ _ (by decide) (by decide) (by decide)]; rfl
+
 end SqlObjVerif.Lex
